@@ -123,7 +123,10 @@ def streams(rng, tier, ctx):
                 sim.run(r.range(30, 80), r.pick([5_000_000, 20_000_000]), lossy, Net(latency=lossy.latency), tr, probe_every=5)
                 H.finish(sim, drain=True, max_ticks=300)
                 sim.run(r.range(120, 200), 50_000_000, Net(latency=lossy.latency), Net(latency=lossy.latency))
-                sim.settled_at = sum(1 for op in sim.ops if op.endswith(" probe")) + 1
+                if sim.drained and sim.quiescent():
+                    # only then is "the window is empty" the same as "no packet is under way": a sender that is still busy (slowly,
+                    # the rate controller near its floor) legitimately has a partly assembled packet at the receiver's window base
+                    sim.settled_at = sum(1 for op in sim.ops if op.endswith(" probe")) + 1
                 for ep in ("A", "B"):
                     sim.probe(ep)
             elif i % 3 != 2:
